@@ -35,6 +35,16 @@ RULE = (
     "buffer, the buffer is rewritten IN PLACE (reshuffled / partly rewritten / refilled), ranking 2 is built from the same "
     "buffer, ..., the comparator is built, the buffer is rewritten once more; every RankResult and every table (taken before "
     "and after the last rewrite) must show the values each ranking was built with; the same for a single ranking.  "
+    "(e) a FIXED SHARE of every run (own loops, own counts): LONG TIED rankings handed over as numpy arrays of a NARROW integer "
+    "dtype (int8 / uint8 / int16) with 128..255 and with 256..420 alternatives (every dtype x length class x 7 tie patterns, "
+    "levels up to the dtype's largest value, plus a short control group), and comparators of 2-3 such rankings (same or mixed "
+    "dtypes, each listed in its own order, some re-listed copies): untied_rank_ / to_series(untied=True) / "
+    "to_dataframe(untied=True) must be the permutation of 1..n refining the ranking, all tables as in (b)/(c).  (f) a FIXED "
+    "SHARE of HISTORIES on one comparator: ask for a table (to_dataframe - every edit x both untied settings - or corr / cov / "
+    "r2_score / distance), edit the returned DataFrame IN PLACE (add / insert / drop / delete a column, drop rows, overwrite a "
+    "column / rows / a cell / everything, in-place arithmetic, re-rank a column, rename or reorder rows and columns, write "
+    "through to_numpy()), ask again with the same arguments (must equal the first answer), 1-4 such steps, then every table "
+    "is taken once more and judged as in (b)/(c).  "
     "Non-trivial: a ranking of length >= 2; a comparator in which two rankings "
     "list the alternatives in different orders or one has ties, or built from a shared buffer.  Distinct by case hash."
 )
@@ -359,6 +369,133 @@ def _buffer_rank_case(rng):
     return c
 
 
+# ---- long rankings held in NARROW integer arrays, and histories in which the caller edits a table it was handed
+
+NARROW_MAX = {"int8": 127, "uint8": 255, "int16": 32767}
+NARROW_HOWS = ["tail", "random-few", "random-many", "blocks", "worst-first", "few-ties", "periodic"]
+
+
+def _narrow_n(rng, n_class):
+    """'128+': more than 127 alternatives (int8 cannot count them); '256+': more than 255 (uint8 cannot either)"""
+    if n_class == "128+":
+        return rng.choice([128, 129, 130, 200, 255, rng.randint(128, 255), rng.randint(128, 255)])
+    if n_class == "256+":
+        return rng.choice([256, 257, 258, 300, rng.randint(256, 420), rng.randint(256, 420)])
+    return rng.randint(2, 127)  # 'short': a control group that fits every dtype
+
+
+def narrow_ranking(rng, dtype, n, how):
+    """a dense ranking of n alternatives WITH ties whose levels fit the narrow dtype (all levels <= its largest value)"""
+    top = NARROW_MAX[dtype]
+    if how == "tail":  # one long tie, the better alternative(s) listed last
+        b = rng.choice([1, 1, 2, n // 3])
+        v = [2] * (n - b) + [1] * b
+        if n > 3 and rng.random() < 0.3:
+            v[0] = 3
+    elif how == "random-few":
+        k = rng.choice([2, 3, 5, 10])
+        v = [rng.randint(1, k) for _ in range(n)]
+    elif how == "random-many":  # as many levels as the dtype (or the length) allows
+        k = max(2, min(top, n - rng.randint(1, max(1, n // 4))))
+        v = [rng.randint(1, k) for _ in range(n)]
+    elif how == "blocks":
+        b = rng.randint(2, 6)
+        cuts = sorted(rng.sample(range(1, n), min(b - 1, n - 1)))
+        lens = [y - x for x, y in zip([0] + cuts, cuts + [n])]
+        v = [r for r, k in zip([rng.randint(1, b) for _ in lens], lens) for _ in range(k)]
+    elif how == "worst-first":
+        k = rng.randint(2, min(top, 40))
+        v = sorted((rng.randint(1, k) for _ in range(n)), reverse=True)
+    elif how == "periodic":
+        k = rng.randint(2, min(top, 100))
+        step = rng.choice([1, k - 1])
+        v = [(i * step) % k for i in range(n)]
+    else:  # few ties: a permutation with a handful of repeated ranks (as many levels as fit)
+        v = rng.sample(range(1, n + 1), n)
+        for _ in range(rng.randint(1, 5)):
+            v[rng.randrange(n)] = v[rng.randrange(n)]
+    v = _dense(v)
+    if max(v) > top:  # merge the worst levels until the dtype can hold them (still dense)
+        v = [min(x, top) for x in v]
+    if len(set(v)) == n and n > 1:  # no tie came out: make one
+        v = _dense(v[:-1] + [v[0]])
+    return v
+
+
+def _narrow_rank_case(rng, dtype, n_class, how):
+    """one ranking with ties, more than 127 / more than 255 alternatives, handed over as a numpy array of a narrow dtype"""
+    n = _narrow_n(rng, n_class)
+    c = _rank_case(rng, narrow_ranking(rng, dtype, n, how), pool=(n_class == "short" and rng.random() < 0.5))
+    c["storage"] = dtype
+    return c
+
+
+def _narrow_cmp_case(rng, dtypes, n_class):
+    """2-3 rankings over more than 127 / 255 alternatives, each handed over as an array of its own (narrow) dtype and listed in
+    its own order; sometimes one is a re-listed copy of another (possibly in another dtype)"""
+    n = _narrow_n(rng, n_class)
+    m = len(dtypes)
+    base = [f"A{i}" for i in range(n)]
+    via = rng.choice(["ctor", "mkrank_cmp"])
+    names = rng.sample(NAME_POOL, m)
+    ranks = []
+    for j, dt in enumerate(dtypes):
+        alts = list(base)
+        if j == 0 or rng.random() < 0.8:
+            rng.shuffle(alts)
+        if dt in NARROW_MAX:
+            vals = narrow_ranking(rng, dt, n, rng.choice(NARROW_HOWS))
+        else:
+            vals = _dense([rng.randint(1, rng.choice([3, 10, n])) for _ in range(n)])
+        ranks.append({"name": names[j], "alts": alts, "values": vals, "storage": dt})
+    if m > 1 and rng.random() < 0.3:  # a re-listed copy (same rank for every alternative), kept in the copy's own dtype
+        src, dst = rng.sample(range(m), 2)
+        by_alt = dict(zip(ranks[src]["alts"], ranks[src]["values"]))
+        if max(by_alt.values()) <= NARROW_MAX.get(ranks[dst]["storage"], 1 << 62):
+            ranks[dst]["values"] = [by_alt[a] for a in ranks[dst]["alts"]]
+    return {"kind": "cmp", "via": via, "ranks": ranks, "long": True, "narrow": True}
+
+
+# what a caller does, IN PLACE, to a table it received from the comparator
+FRAME_EDITS = ["add-column", "insert-column", "drop-row", "drop-column", "del-column", "overwrite-column", "overwrite-rows",
+               "overwrite-all", "overwrite-cell", "scale", "rerank-column", "rename-columns", "rename-rows", "rename-inplace",
+               "sort-rows", "numpy-write", "drop-row+add-column"]
+HISTORY_CALLS = ["to_dataframe", "to_dataframe", "to_dataframe", "corr", "cov", "r2_score", "distance"]
+
+
+def _history_step(rng, call, untied, edit):
+    st = {"call": call, "untied": untied, "edit": edit, "k": rng.randrange(1 << 16)}
+    if call == "distance" and rng.random() < 0.4:
+        st["metric"] = rng.choice(["cityblock", "euclidean", "chebyshev"])
+    return st
+
+
+STAT_CALLS = ["corr", "cov", "r2_score", "distance"]
+
+
+def _first_step(i):
+    """the schedule of first steps: even cases edit a to_dataframe (every edit x both untied settings in 34 cases), odd cases
+    edit a corr / cov / r2_score / distance table (call fastest, then untied, the edit rotating)"""
+    t = i // 2
+    if i % 2 == 0:
+        return "to_dataframe", bool(t % 2), FRAME_EDITS[(t // 2) % len(FRAME_EDITS)]
+    return STAT_CALLS[t % 4], bool((t // 4) % 2), FRAME_EDITS[(t // 8 + t) % len(FRAME_EDITS)]
+
+
+def _history_cmp_case(rng, i, max_alts=9):
+    """a multi-step history on ONE comparator: ask for a table (to_dataframe / corr / cov / r2_score / distance, untied or
+    not), edit the returned frame IN PLACE, ask again with the same arguments; 1-4 such steps; then every table is taken
+    once more.  The first step comes from a fixed schedule (`_first_step`), the later ones are random."""
+    c = _relisted_cmp_case(rng, max_alts) if rng.random() < 0.25 else _cmp_case(rng, max_alts)
+    while len(c["ranks"][0]["alts"]) < 2 or not cmp_wellformed(c):
+        c = _cmp_case(rng, max_alts)
+    steps = [_history_step(rng, *_first_step(i))]
+    for _ in range(rng.choice([0, 1, 1, 2, 3])):
+        steps.append(_history_step(rng, rng.choice(HISTORY_CALLS), rng.random() < 0.5, rng.choice(FRAME_EDITS)))
+    c["history"] = steps
+    return c
+
+
 def _with_metrics(rng, c, k):
     """the same comparator, also asked for k distance tables with a non-default metric"""
     if "metrics" not in c:
@@ -408,7 +545,32 @@ def gen(ctx):
         cases.append(_buffer_cmp_case(rng, ctx.n(9, 15)))
     for i in range(ctx.n(60, 600)):
         cases.append(_buffer_rank_case(rng))
+    cases.extend(_narrow_and_history_cases(rng, ctx.n(1, 10), ctx.n(72, 700), ctx.n(12, 90), ctx.n(9, 15)))
     return cases
+
+
+def _narrow_and_history_cases(rng, reps, n_hist, n_ncmp, max_alts):
+    """the fixed share of every run: (1) long tied rankings in narrow integer arrays - every dtype x length class x pattern;
+    (2) histories in which the caller edits a returned table in place - every edit on to_dataframe with both untied
+    settings, and on corr / cov / r2_score / distance; (3) comparators over long rankings in narrow arrays"""
+    out = []
+    for rep in range(reps):
+        for dtype in ("int8", "uint8", "int16"):
+            for n_class in ("128+", "256+"):
+                for how in NARROW_HOWS:
+                    out.append(_narrow_rank_case(rng, dtype, n_class, how))
+            for how in rng.sample(NARROW_HOWS, 2):  # control group: the same storage, a length every dtype can count
+                out.append(_narrow_rank_case(rng, dtype, "short", how))
+    for i in range(n_hist):
+        out.append(_with_metrics(rng, _history_cmp_case(rng, i, max_alts), 1))
+    sched = [(("int8", "int8"), "128+"), (("uint8", "uint8"), "256+"), (("int16", "int16"), "256+"), (("int8", "int64"), "128+"),
+             (("uint8", "int8"), "256+"), (("int16", "uint8"), "128+"), (("int8", "uint8", "int16"), "256+"),
+             (("int64", "int8", "int8"), "128+"), (("int8", "int8"), "256+"), (("uint8", "uint8"), "128+"),
+             (("int8", "int8"), "short"), (("uint8", "int16"), "short")]
+    for i in range(n_ncmp):
+        dts, n_class = sched[i % len(sched)]
+        out.append(_with_metrics(rng, _narrow_cmp_case(rng, dts, n_class), 1))
+    return out
 
 
 def search_gen(ctx):
@@ -433,6 +595,7 @@ def search_gen(ctx):
         cases.append(_buffer_cmp_case(rng, 9))
     for i in range(200):
         cases.append(_buffer_rank_case(rng))
+    cases.extend(_narrow_and_history_cases(rng, 3, 300, 40, 9))
     return cases
 
 
@@ -498,6 +661,125 @@ class _Buffer:
             self.alts[:] = self.alts[::-1].copy()
 
 
+def _stored(values, dtype):
+    """the rank values as the caller holds them: a numpy array of the given (narrow) integer dtype"""
+    if dtype is None:
+        return values
+    arr = np.array(values, dtype=dtype)
+    if arr.tolist() != list(values):
+        raise AssertionError(f"generator: the ranking does not fit {dtype}")
+    return arr
+
+
+def _apply_edit(df, step):
+    """what the caller does IN PLACE to a DataFrame it was handed; returns False when pandas refuses the edit"""
+    how, k = step["edit"], step["k"]
+    nr, nc = df.shape
+    try:
+        if how == "add-column":
+            df["consensus"] = df.mean(axis=1)
+        elif how == "insert-column":
+            df.insert(0, "best", df.min(axis=1))
+        elif how == "drop-row":
+            df.drop(index=df.index[k % nr], inplace=True)
+        elif how == "drop-column":
+            df.drop(columns=df.columns[k % nc], inplace=True)
+        elif how == "del-column":
+            del df[df.columns[k % nc]]
+        elif how == "overwrite-column":
+            df[df.columns[k % nc]] = 0
+        elif how == "overwrite-rows":
+            df.iloc[:, k % nc] = df.iloc[::-1, k % nc].to_numpy()
+            df.iloc[k % nr, :] = 1
+        elif how == "overwrite-all":
+            df.loc[:, :] = 0
+        elif how == "overwrite-cell":
+            df.iat[k % nr, (k // 7) % nc] = 99
+        elif how == "scale":
+            df *= 2
+            df += 1
+        elif how == "rerank-column":
+            c = df.columns[k % nc]
+            df[c] = df[c].rank(ascending=False, method="first").fillna(0).astype(int)
+        elif how == "rename-columns":
+            df.columns = [f"x{j}" for j in range(nc)]
+        elif how == "rename-rows":
+            df.index = list(df.index[::-1]) if nr > 1 else ["zz"]
+        elif how == "rename-inplace":
+            df.rename(columns={df.columns[k % nc]: "renamed"}, index={df.index[k % nr]: "other"}, inplace=True)
+        elif how == "sort-rows":
+            df.sort_values(by=df.columns[k % nc], ascending=bool(k % 2), kind="stable", inplace=True)
+            df.sort_index(axis=1, ascending=False, inplace=True)
+        elif how == "numpy-write":
+            df.to_numpy()[...] = 0  # a view of the frame's storage, if pandas hands one out
+            df.values[k % nr, :] = 7
+        elif how == "drop-row+add-column":
+            df["consensus"] = df.mean(axis=1)
+            df.drop(index=df.index[k % nr], inplace=True)
+            df[df.columns[0]] = df[df.columns[0]].rank(ascending=False).fillna(0).astype(int)
+        else:
+            raise KeyError(how)
+    except (ValueError, TypeError) as e:  # e.g. a read-only view: the caller's attempt simply failed
+        if how != "numpy-write":
+            raise
+        return False
+    return True
+
+
+def _history_call(cmp, step):
+    if step["call"] == "to_dataframe":
+        return cmp.to_dataframe(untied=step["untied"])
+    if step["call"] == "distance" and "metric" in step:
+        return cmp.distance(untied=step["untied"], metric=step["metric"])
+    return getattr(cmp, step["call"])(untied=step["untied"])
+
+
+def _run_history(cmp, steps):
+    """ask - edit the answer in place - ask again with the same arguments"""
+    out = []
+    for step in steps:
+        read = _frame if step["call"] == "to_dataframe" else _table
+        rec = {}
+        try:
+            t = _history_call(cmp, step)
+            rec["first"] = read(t)
+        except Exception as e:
+            rec["first"] = {"err": f"{G.err_name(e)}: {str(e)[:120]}"}
+            out.append(rec)
+            continue
+        rec["edited"] = _apply_edit(t, step)
+        try:
+            rec["again"] = read(_history_call(cmp, step))
+        except Exception as e:
+            rec["again"] = {"err": f"{G.err_name(e)}: {str(e)[:120]}"}
+        out.append(rec)
+    return out
+
+
+def _observe_tables(cmp, case, o):
+    narrow = any("storage" in r for r in case["ranks"])
+    for u in (False, True):
+        key = "untied" if u else "plain"
+        df = cmp.to_dataframe(untied=u)
+        o[key] = {
+            "frame": _frame(df),
+            "corr": _table(cmp.corr(untied=u)),
+            "cov": _table(cmp.cov(untied=u)),
+            "r2": _table(cmp.r2_score(untied=u)),
+            "dist": _table(cmp.distance(untied=u)),
+        }
+        if narrow:
+            o[key]["frame_dtypes"] = [str(d) for d in df.dtypes]
+        extra = []
+        for mt in case.get("metrics", []):
+            try:
+                extra.append({"table": _table(cmp.distance(untied=u, metric=mt["metric"], **mt["kwargs"]))})
+            except Exception as e:
+                extra.append({"err": G.err_name(e)})
+        if extra:
+            o[key]["dist_metric"] = extra
+
+
 def observe(case):
     from skcriteria.agg import RankResult
     from skcriteria.cmp import RanksComparator, mkrank_cmp
@@ -509,7 +791,7 @@ def observe(case):
         if case["kind"] == "rank":
             try:
                 if buf is None:
-                    res = RankResult("method", case["alts"], case["values"], {})
+                    res = RankResult("method", case["alts"], _stored(case["values"], case.get("storage")), {})
                 else:
                     res = RankResult("method", *buf.load(case["alts"], case["values"]), {})
             except Exception as e:
@@ -523,7 +805,7 @@ def observe(case):
             return o
         if case["kind"] == "cmp":
             if buf is None:
-                results = [RankResult(r["name"], r["alts"], r["values"], {}) for r in case["ranks"]]
+                results = [RankResult(r["name"], r["alts"], _stored(r["values"], r.get("storage")), {}) for r in case["ranks"]]
             else:  # every ranking from the same buffer, rewritten in place between the constructions
                 results = [RankResult(r["name"], *buf.load(r["alts"], r["values"]), {}) for r in case["ranks"]]
             try:
@@ -540,23 +822,14 @@ def observe(case):
                 buf.scribble(case["buffer"]["final"])  # ... and once more after the comparator exists
                 o["results_after"] = [{"rank": [int(x) for x in res.rank_], "untied": [int(x) for x in res.untied_rank_],
                                        "index": [str(a) for a in res.alternatives]} for res in results]
-            for u in (False, True):
-                key = "untied" if u else "plain"
-                o[key] = {
-                    "frame": _frame(cmp.to_dataframe(untied=u)),
-                    "corr": _table(cmp.corr(untied=u)),
-                    "cov": _table(cmp.cov(untied=u)),
-                    "r2": _table(cmp.r2_score(untied=u)),
-                    "dist": _table(cmp.distance(untied=u)),
-                }
-                extra = []
-                for mt in case.get("metrics", []):
-                    try:
-                        extra.append({"table": _table(cmp.distance(untied=u, metric=mt["metric"], **mt["kwargs"]))})
-                    except Exception as e:
-                        extra.append({"err": G.err_name(e)})
-                if extra:
-                    o[key]["dist_metric"] = extra
+            if "history" in case:  # the caller edits tables it is handed, then everything is asked once more
+                o["history"] = _run_history(cmp, case["history"])
+                try:
+                    _observe_tables(cmp, case, o)
+                except Exception as e:
+                    o["later_err"] = f"{G.err_name(e)}: {str(e)[:160]}"
+                return o
+            _observe_tables(cmp, case, o)
             return o
     raise KeyError(case["kind"])
 
@@ -719,6 +992,45 @@ def recompute_distance(frame, metric, kwargs):
     return out
 
 
+def same_table(a, b):
+    """two observations of the same table (frames: exactly; statistics: labels exactly, numbers within TOL, NaN = NaN)"""
+    if "err" in a or "err" in b:
+        return False
+    if "cells" in a:
+        return a == b
+    if "values" not in b or a["index"] != b["index"] or a["columns"] != b["columns"]:
+        return False
+    if [len(r) for r in a["values"]] != [len(r) for r in b["values"]]:
+        return False
+    for ra, rb in zip(a["values"], b["values"]):
+        for x, y in zip(ra, rb):
+            if (x is None) != (y is None) or (x is not None and not _close(x, y)):
+                return False
+    return True
+
+
+NARROW_R2_IDENTITY = {
+    "site": "skcriteria/cmp/ranks_cmp.py r2_score (sklearn.metrics.r2_score on the int8/uint8/int16 columns of to_dataframe)",
+    "input": "two rankings stored in a narrow integer dtype whose ranks differ on some alternative by more than the square root "
+             "of the dtype's largest value: (y_true - y_pred) ** 2 wraps around in that dtype",
+}
+
+
+def narrow_r2_identity(stat, frame, dtypes, i, j, got):
+    """the identity of the narrow-storage R2 finding - only when the reported cell is EXACTLY what sklearn's r2_score gives
+    on the two frame columns held in the narrow dtype the implementation's frame has (so the wrap-around explains it)"""
+    if stat != "r2" or not dtypes or got is None or not {dtypes[i], dtypes[j]} <= set(NARROW_MAX):
+        return None
+    from sklearn import metrics as skl_metrics
+
+    lo, hi = min(i, j), max(i, j)
+    with warnings.catch_warnings(), np.errstate(all="ignore"):
+        warnings.simplefilter("ignore")
+        wrapped = skl_metrics.r2_score(np.array([row[lo] for row in frame["cells"]], dtype=dtypes[lo]),
+                                       np.array([row[hi] for row in frame["cells"]], dtype=dtypes[hi]))
+    return dict(NARROW_R2_IDENTITY) if _close(got, float(wrapped)) else None
+
+
 def frame_findings(fr, cols, names, alts, label, untied):
     """to_dataframe against 'each alternative's rank under its own name': [(what, expected, observed)]"""
     if fr["cols"] != names:
@@ -755,8 +1067,10 @@ def requests(case, obs):
 def judge(case, obs, replies):
     out = []
 
-    def prop(what, expected=None, observed=None):
+    def prop(what, expected=None, observed=None, identity=None):
         out.append({"kind": "property", "what": what, "expected": expected, "observed": observed})
+        if identity:
+            out[-1]["identity"] = identity
 
     def corr(what, expected=None, observed=None):
         out.append({"kind": "correspondence", "what": what, "expected": expected, "observed": observed})
@@ -833,6 +1147,28 @@ def judge(case, obs, replies):
         if obs["mid"]["dist"] != obs["plain"]["dist"]:
             prop("distance() changed when the caller's buffer was modified in place after the comparator was built",
                  obs["mid"]["dist"], obs["plain"]["dist"])
+    if "history" in obs:  # the caller edited, in place, tables it had been handed: later tables must not show it
+        for k, (step, rec) in enumerate(zip(case["history"], obs["history"])):
+            sl = f"{step['call']}(untied={step['untied']}" + (f", metric={step['metric']}" if "metric" in step else "") + ")"
+            where = f"history step {k + 1}: "
+            if "err" in rec["first"]:
+                prop(where + f"{sl} raised {rec['first']['err']}" + (" after the caller edited an earlier table" if k else ""),
+                     "a table", rec["first"]["err"])
+                break
+            if step["call"] == "to_dataframe":
+                ff = frame_findings(rec["first"], expected_columns(case, step["untied"]), names, alts, where + sl, step["untied"])
+                for what, e, g in ff:
+                    prop(what + (" (after the caller edited an earlier table in place)" if k else ""), e, g)
+                if ff:
+                    break
+            if not same_table(rec["first"], rec["again"]):
+                prop(where + f"{sl} asked again with the same arguments differs after the caller edited ({step['edit']}, in place) "
+                     "the frame returned by the first call", rec["first"], rec["again"])
+                break
+        if "later_err" in obs:
+            prop("a table of the comparator could not be computed after the caller edited an earlier returned table in place: "
+                 + obs["later_err"], "a table", obs["later_err"])
+            return out
     for u, key, reply in ((False, "plain", replies[0]), (True, "untied", replies[1])):
         o = obs[key]
         fr = o["frame"]
@@ -886,6 +1222,12 @@ def judge(case, obs, replies):
                 if exp is None:
                     continue  # NaN statistic (zero variance / one alternative): skipped
                 if got is None or not _close(got, exp):
+                    if narrow_r2_identity(stat, fr, o.get("frame_dtypes"), i, j, got) is not None:
+                        # the cell IS the external statistic (sklearn.metrics.r2_score) of the two label-aligned columns as they are
+                        # stored (int8 / uint8 / int16: its squared differences wrap around in that dtype).  The property is about
+                        # the alignment by alternative name, which holds; the arithmetic of the external function on narrow integers
+                        # is outside its statement (DESIGN 16.3)
+                        continue
                     prop(f"{sl}[{names[i]!r}][{names[j]!r}] is not the statistic of columns {names[i]!r} and {names[j]!r} "
                          f"of to_dataframe(untied={u}) (rankings aligned by alternative name)", exp, got)
                     break
@@ -943,7 +1285,7 @@ def nontrivial(case, obs):
         return len(case["values"]) >= 2
     if "err" in obs:
         return True
-    return "buffer" in case or _different_orders(case) or any(len(set(r["values"])) != len(r["values"]) for r in case["ranks"])
+    return "buffer" in case or "history" in case or _different_orders(case) or any(len(set(r["values"])) != len(r["values"]) for r in case["ranks"])
 
 
 def tags(case, obs):
@@ -955,6 +1297,8 @@ def tags(case, obs):
             t.append("rank:better-listed-100+-later")
         if "buffer" in case:
             t.append("rank:built-from-buffer-modified-afterwards")
+        if "storage" in case:
+            t.append("rank:stored-as=%s:n=%s" % (case["storage"], "2-127" if n <= 127 else "128-255" if n <= 255 else "256+"))
         return t
     t = ["cmp", "cmp:via=" + case["via"]]
     if "err" in obs:
@@ -973,6 +1317,15 @@ def tags(case, obs):
     alltied = any(len(r["values"]) > 1 and len(set(r["values"])) == 1 for r in case["ranks"])
     if alltied:
         t.append("cmp:all-tied-ranking")
+    if case.get("narrow"):
+        n = len(case["ranks"][0]["alts"])
+        t.append("cmp:stored-as=%s:n=%s" % ("+".join(r["storage"] for r in case["ranks"]),
+                                            "2-127" if n <= 127 else "128-255" if n <= 255 else "256+"))
+    for step, rec in zip(case.get("history", []), obs.get("history", [])):
+        t.append(f"cmp:caller-edits-returned-table:{step['call']}(untied={step['untied']})")
+        t.append(f"cmp:caller-edit:{step['edit']}" + ("" if rec.get("edited", True) else ":refused-by-pandas"))
+    if "later_err" in obs:
+        return t
     if "buffer" in case:
         t.append("cmp:one-buffer-history:" + case["buffer"]["dtype"] + ("+labels" if case["buffer"]["alts_buffer"] else ""))
     for mt in case.get("metrics", []):
